@@ -65,6 +65,19 @@ pub fn judge(ctx: &mut Ctx, c: &Case) {
   let (depth, dd, lon, lat, a, b, pa) = (c.gu("depth") as u8, c.gu("dd") as u8, c.gf("lon"), c.gf("lat"), c.gf("a"), c.gf("b"), c.gf("pa"));
   let mut rng = Rng::new(c.gu("s"), 13);
   let thr = thresholds();
+  // hostile call history (one ellipse in 6): a sibling call differing in one argument comes first (see the cone monitor)
+  if c.gu("s") % 6 == 1 {
+    let (l2, b2, a2, m2, p2, d2) = match (c.gu("s") / 6) % 6 {
+      0 => (rng.f() * TWO_PI, lat, a, b, pa, depth),
+      1 => (lon, -lat, a, b, pa, depth),
+      2 => (lon, lat, a, b, (pa + PI / 2.0) % PI, depth),
+      3 => (lon, lat, a, a, pa, depth),
+      4 => (lon, lat, (a * 1.5).min(1.5), b, pa, depth),
+      _ => (lon, lat, a, b, pa, if depth > 0 { depth - 1 } else { depth + 1 }),
+    };
+    let _ = catch(|| if dd == 0 || d2 + dd > 29 { nested::elliptical_cone_coverage(d2, l2, b2, a2, m2, p2) } else { nested::elliptical_cone_coverage_custom(d2, dd, l2, b2, a2, m2, p2) });
+    ctx.hard("ellipse:judged-right-after-a-sibling-call(one-argument-changed)", &[depth as u64, lon.to_bits(), lat.to_bits(), a.to_bits(), b.to_bits()]);
+  }
   ctx.eval();
   precall(c);
   let res = catch(|| if dd == 0 { nested::elliptical_cone_coverage(depth, lon, lat, a, b, pa) } else { nested::elliptical_cone_coverage_custom(depth, dd, lon, lat, a, b, pa) });
